@@ -367,3 +367,41 @@ def loop_shape_cases(seed, shard, nshards, k=2):
             continue
         yield tag, {"defn": ps.to_json(ast), "k": k, "pick": None,
                     "sched": seed * 1000 + i}
+
+
+def partial_or_cases(shard, nshards, tier):
+    """Exhaustive family of partial views of a plain OR fork: every proper
+    non-empty subset of the jobs of  S; OR{A|B|C}; Z  and three variants (two
+    branches; a two-event branch and a longer tail; the fork opening the
+    job), in the thorough tier also 600 seeded subsets of the four-branch
+    fork.  Views that fall under the F-P predicate are excluded by the
+    caller as usual."""
+    import itertools
+    from vlib.pumlsem import Seq, Ev, Fork
+
+    def S(*a):
+        return Seq(tuple(a))
+
+    def OR(*names):
+        return Fork("OR", tuple(S(*[Ev(x) for x in n.split()])
+                                for n in names))
+    defs = [("or3", S(Ev("S"), OR("A", "B", "C"), Ev("Z"))),
+            ("or2", S(Ev("S"), OR("A", "B"), Ev("Z"))),
+            ("or3_long", S(Ev("S"), OR("A A2", "B", "C"), Ev("Z"), Ev("Y"))),
+            ("or3_start", S(OR("A", "B", "C"), Ev("Z")))]
+    if tier == "thorough":
+        defs.append(("or4", S(Ev("S"), OR("A", "B", "C", "D"), Ev("Z"))))
+    idx = 0
+    for name, ast in defs:
+        n = len(list(ps.enumerate_jobs(ast, 1)))
+        subsets = [c for r in range(1, n)
+                   for c in itertools.combinations(range(n), r)]
+        if len(subsets) > 600:
+            random.Random(1).shuffle(subsets)
+            subsets = subsets[:600]
+        for sub in subsets:
+            idx += 1
+            if idx % nshards != shard:
+                continue
+            yield name, {"defn": ps.to_json(ast), "k": 1, "pick": list(sub),
+                         "sched": idx}
